@@ -641,6 +641,148 @@ fn run_case(case: &Case, mode: &str, thorough: bool, lean: &mut Lean, st: &mut S
         }
     }
 
+    if mode == "c15" {
+        // (a) a journal written under one compression setting is readable under the other
+        {
+            let cdir = scratch.join("other");
+            copy_dir_sparse(&dbdir, &cdir);
+            st.reopens += 1;
+            let mut state = State::new();
+            for b in &run.batches {
+                apply(&mut state, b);
+            }
+            let want: BTreeMap<String, BTreeMap<Vec<u8>, Vec<u8>>> =
+                (0..case.nks).map(|i| (format!("ks{i}"), state.get(&run.ks_ids[i]).cloned().unwrap_or_default())).collect();
+            match dump_db(&cdir, !case.lz4, case.nks) {
+                Ok(d) if d == want => {}
+                Ok(_) => fails.push(Failure { kind: "impl-vs-oracle", detail: "reopen under the other journal compression setting: content differs from what was written".into() }),
+                Err(e) => fails.push(Failure { kind: "impl-vs-oracle", detail: format!("reopen under the other journal compression setting failed: {e}") }),
+            }
+            let _ = std::fs::remove_dir_all(&cdir);
+        }
+        // (b) single-byte alterations
+        let budget: usize = if thorough { 30_000_000 } else { 2_500_000 };
+        let max_alts = (budget / content.len().max(1)).max(40);
+        // positions of the 8 seqno bytes of every Start marker: region of known finding F9,
+        // probed only by its stored witness
+        let mut f9_region = std::collections::HashSet::new();
+        let mut starts = vec![0usize];
+        starts.extend(ends.iter().copied());
+        for &s0 in &starts[..nb] {
+            for k in 5..13 {
+                f9_region.insert(s0 + k);
+            }
+        }
+        let mut alts: Vec<(usize, u8)> = Vec::new();
+        let all_vals = content.len() * 4 <= max_alts;
+        let mut positions: Vec<usize> = if content.len() * 4 <= max_alts {
+            (0..content.len()).collect()
+        } else {
+            let mut v: Vec<usize> = Vec::new();
+            // structural bytes first: batch headers, item headers of the first item, trailers
+            for &s0 in &starts[..nb] {
+                v.extend(s0..(s0 + 13 + 23).min(content.len()));
+            }
+            for &e in &ends {
+                v.extend(e.saturating_sub(13)..e);
+            }
+            v.sort();
+            v.dedup();
+            v.truncate(max_alts / 8);
+            while v.len() < max_alts / 4 {
+                v.push(r.range(0, content.len() - 1));
+            }
+            v
+        };
+        positions.retain(|p| !f9_region.contains(p));
+        for &p in &positions {
+            let b = content[p];
+            let mut vals = vec![b.wrapping_add(1), b ^ 0x80, 0u8, 0xff];
+            if thorough && all_vals && content.len() <= 512 {
+                vals = (0..=255u8).collect();
+            }
+            vals.sort();
+            vals.dedup();
+            for v in vals {
+                if v != b {
+                    alts.push((p, v));
+                }
+            }
+        }
+        let orig: Vec<String> = run.batches.iter().map(|b| show_expected(std::slice::from_ref(b), 0)).collect();
+        let strip = |s: &str| -> String {
+            // "batches=[x] final=0 err=none" -> payload without the seqno prefix
+            let inner = s.split("batches=[").nth(1).unwrap_or("").split("] final=").next().unwrap_or("");
+            inner.splitn(2, ':').nth(1).unwrap_or("").to_string()
+        };
+        let orig_payloads: Vec<String> = orig.iter().map(|s| strip(s)).collect();
+        let mut reopen_budget = if thorough { 60 } else { 12 };
+        for (p, v) in alts {
+            st.alterations += 1;
+            let mut altered = content.clone();
+            altered[p] = v;
+            let real = real_read(&scratch.path, &altered, 0);
+            let model = lean.ask(&format!("readalt {p} {v}"));
+            if model != real {
+                fails.push(Failure { kind: "model-vs-impl", detail: format!("byte {p} := {v:#04x}: model reader differs from real reader:\n model={}\n real={}", clip(&model), clip(&real)) });
+            }
+            // oracle: error, or the batches of a prefix with unaltered items
+            let outcome;
+            if real == "panic" {
+                outcome = "panic";
+                fails.push(Failure { kind: "impl-vs-oracle", detail: format!("byte {p} := {v:#04x}: the real reader panics") });
+            } else if !real.ends_with("err=none") {
+                outcome = "error";
+            } else {
+                let inner = real.split("batches=[").nth(1).unwrap_or("").split("] final=").next().unwrap_or("");
+                let got: Vec<String> = if inner.is_empty() { vec![] } else { inner.split(' ').map(|b| b.splitn(2, ':').nth(1).unwrap_or("").to_string()).collect() };
+                let is_prefix = got.len() <= orig_payloads.len() && got.iter().zip(orig_payloads.iter()).all(|(a, b)| a == b);
+                if is_prefix {
+                    outcome = if got.len() == orig_payloads.len() { "accepted-identical" } else { "prefix" };
+                } else {
+                    outcome = "ALTERED-DATA";
+                    fails.push(Failure { kind: "impl-vs-oracle", detail: format!("byte {p} := {v:#04x} (was {:#04x}): the reader returns batches that are not a prefix of what was written: {}", content[p], clip(&real)) });
+                }
+            }
+            *st.alter_outcome.entry(outcome.to_string()).or_insert(0) += 1;
+            // sampled: the same through a real reopen
+            if reopen_budget > 0 && r.chance(1, 40) {
+                reopen_budget -= 1;
+                st.reopens += 1;
+                let cdir = scratch.join("alt");
+                copy_dir_sparse(&dbdir, &cdir);
+                std::fs::write(cdir.join("0.jnl"), &altered).unwrap();
+                let got = dump_db(&cdir, case.lz4, case.nks);
+                let mut ok = false;
+                match &got {
+                    Err(e) if e != "panic" => ok = true,
+                    Err(_) => {}
+                    Ok(d) => {
+                        let mut state = State::new();
+                        for k in 0..=run.batches.len() {
+                            let want: BTreeMap<String, BTreeMap<Vec<u8>, Vec<u8>>> =
+                                (0..case.nks).map(|i| (format!("ks{i}"), state.get(&run.ks_ids[i]).cloned().unwrap_or_default())).collect();
+                            if *d == want {
+                                ok = true;
+                                break;
+                            }
+                            if k < run.batches.len() {
+                                apply(&mut state, &run.batches[k]);
+                            }
+                        }
+                    }
+                }
+                if !ok {
+                    fails.push(Failure { kind: "impl-vs-oracle", detail: format!("byte {p} := {v:#04x}: reopening yields neither an error nor the state of a prefix of the commit history ({:?})", got.as_ref().err()) });
+                }
+                let _ = std::fs::remove_dir_all(&cdir);
+            }
+            if fails.len() > 3 {
+                return fails;
+            }
+        }
+    }
+
     if nontrivial {
         st.nontrivial.insert(fnv(&format!("{:?}", run.batches.iter().map(batch_spec).collect::<Vec<_>>())));
     }
